@@ -175,6 +175,19 @@ pub fn debug_cmd(args: &[String]) {
             let settings = if args.get(2).map(|s| s.as_str()) == Some("2023_01") { crate::core::cairo::SETTINGS_2023_01 } else { crate::core::cairo::SETTINGS_2024_07 };
             println!("{:?}", c18::debug_file(&src, settings));
         }
+        Some("c14count") => {
+            // dbg c14count: size of the enumerated mutant space (mutants, mutants x statements) per tier.
+            for (name, max_stmts, thin) in [("quick", 400usize, 3usize), ("thorough", 3000, 1), ("thorough-1500", 1500, 1), ("thorough-1000", 1000, 1)] {
+                let corpus = crate::core::sierra::load_corpus(max_stmts);
+                let (mut n, mut w) = (0u64, 0u64);
+                for it in &corpus {
+                    let k = crate::gens::sierramut::enumerate(&it.program, thin).len() as u64;
+                    n += k;
+                    w += k * it.program.statements.len() as u64;
+                }
+                println!("{name}: programs {} mutants {n} work {w}", corpus.len());
+            }
+        }
         Some("bl") => {
             // dbg bl: every operation x shape of gens/builtin_loops compiles, runs and passes the gas check.
             use crate::gens::builtin_loops as bl;
